@@ -16,10 +16,14 @@
   * D18: the run-id/version fields are written once per DB *the connection is
         in* when the offset is written (was: keyed by the last queued item's
         parser DB, and skipped altogether when the queue was empty).
-  * D23: MULTI / EXEC are never withheld by the database filter (an EXEC
-        swallowed because the transaction had switched to a blacklisted DB left
-        the sender inside the transaction: everything after it was queued until
-        the next EXEC and a nested MULTI was forwarded as data).
+  * D23: the EXEC of a transaction that switched to a blacklisted DB is still
+        handed to the sender (swallowed, it left the sender inside the transaction:
+        everything after it was queued until the next EXEC and a nested MULTI was
+        forwarded as data) — carrying the offset of the last command handed over,
+        so that the resume position never moves into the bypassed region (a first
+        repair let every MULTI/EXEC pass with its own offset: an independent
+        review showed that a restart then resumed inside the blacklisted region
+        with `bypass = false` and applied that database's commands).
 -/
 import GunYu.Basic.Bytes
 
@@ -64,6 +68,8 @@ structure PCfg where
 structure PState where
   currentDB : Int := -1
   bypass    : Bool := false
+  txnOpen   : Bool := false   -- a MULTI was handed to the sender and its EXEC not yet
+  lastSent  : Int := 0        -- end offset of the last command handed to the sender (start offset initially)
   deriving DecidableEq, Repr
 
 /-- `RedisOutput.selectDB` -/
@@ -93,6 +99,18 @@ inductive POut
   | fail                 -- parser stops with an error (malformed SELECT)
   deriving DecidableEq, Repr
 
+/-- D23 repair: the EXEC of a transaction that switched to a filtered database is
+    still handed to the sender (which would otherwise stay inside the transaction),
+    carrying the offset of the last command handed over — so the resume position
+    never moves into the filtered region, where a restart could not know that the
+    source is in a filtered database. Every other command is withheld in bypass. -/
+def closesTxn (s : PState) (cmd : Bytes) : Bool := s.bypass && decide (cmd = bExec) && s.txnOpen
+
+/-- bookkeeping after a command was handed to the sender -/
+def sent (s : PState) (cmd : Bytes) (off : Int) : PState :=
+  { s with lastSent := off,
+           txnOpen := if cmd = bMulti then true else if cmd = bExec then false else s.txnOpen }
+
 /-- one iteration of the `parseAofCommand` loop on a decoded command -/
 def parseStep (c : PCfg) (s : PState) (r : Raw) : PState × POut :=
   if r.cmd = bPing then
@@ -100,7 +118,8 @@ def parseStep (c : PCfg) (s : PState) (r : Raw) : PState × POut :=
     match c.filterCmdKey r.cmd r.args with
     | none => (s, .skip)
     | some a => if s.bypass then (s, .skip)
-                else (s, .emit { cmd := r.cmd, args := a, offset := r.off, db := s.currentDB })
+                else (sent s r.cmd r.off,
+                      .emit { cmd := r.cmd, args := a, offset := r.off, db := s.currentDB })
   else if r.cmd = bSelect then
     match r.args with
     | [a] =>
@@ -114,18 +133,22 @@ def parseStep (c : PCfg) (s : PState) (r : Raw) : PState × POut :=
           | some a =>
             if n ≥ 0 then
               let (tdb, changed) := selectDB c s1.currentDB n
-              if changed then ({ s1 with currentDB := tdb }, .emit (selectItem tdb r.off))
+              if changed then ({ s1 with currentDB := tdb, lastSent := r.off },
+                               .emit (selectItem tdb r.off))
               else (s1, .skip)
             else
               -- selectDB < 0: falls through as an ordinary command
-              (s1, .emit { cmd := r.cmd, args := a, offset := r.off, db := s1.currentDB })
+              (sent s1 r.cmd r.off,
+               .emit { cmd := r.cmd, args := a, offset := r.off, db := s1.currentDB })
     | _ => (s, .fail)
   else if c.filterCmd r.cmd then (s, .skip)
   else if r.cmd = bPublish ∧ (r.args.head?.map lower) = some bSentinelHello then (s, .skip)
-  else if s.bypass ∧ r.cmd ≠ bMulti ∧ r.cmd ≠ bExec then (s, .skip)   -- D23 repair: brackets pass the db filter
+  else if s.bypass ∧ closesTxn s r.cmd = false then (s, .skip)
   else match c.filterCmdKey r.cmd r.args with
     | none => (s, .skip)
-    | some a => (s, .emit { cmd := r.cmd, args := a, offset := r.off, db := s.currentDB })
+    | some a =>
+      let off := if closesTxn s r.cmd then s.lastSent else r.off
+      (sent s r.cmd off, .emit { cmd := r.cmd, args := a, offset := off, db := s.currentDB })
 
 /-- the whole parser on a list of decoded commands: emitted items (in order);
     stops at the first failure -/
@@ -140,7 +163,7 @@ def parseAll (c : PCfg) : PState → List Raw → List Item
 /-- items the sender receives for a run that starts at `startOff` -/
 def parserItems (c : PCfg) (startOff : Int) (raws : List Raw) : List Item :=
   (if c.startDbId > 0 then [selectItem c.startDbId startOff] else []) ++
-    parseAll c {} raws
+    parseAll c { lastSent := startOff } raws
 
 /-! ### transaction status (syncer/transaction.go) -/
 
